@@ -1,0 +1,57 @@
+//go:build verif
+
+// Machine-checked contracts for package lease_set (comment-only file; never
+// compiled into the library).  Read by /verif/engine (gvc).
+//
+// LeaseSet is a composite: its functions are verified with this package's own
+// helpers unfolded and every component call (keys-and-cert, certificate, key
+// certificate, signature, lease, Integer) going through that component's
+// contract.
+
+package lease_set
+
+//@ import "github.com/go-i2p/common/keys_and_cert"
+//@ import "github.com/go-i2p/common/destination"
+//@ import "github.com/go-i2p/common/key_certificate"
+
+//@ loop extractLeases 0: unroll 16
+//@ loop LeaseSet.Bytes 0: concrete 16
+//@ loop serializeLeaseSetData 0: concrete 16
+
+// C01: re-serialising an accepted LeaseSet reproduces the bytes it was parsed
+// from (ReadLeaseSet returns no remainder: it consumes up to the end of the
+// signature and ignores what follows).
+//@ lemma C01_ReadLeaseSet_T(data []byte) {
+//@   ls, err := ReadLeaseSet(data)
+//@   if err == nil {
+//@     b, e := ls.Bytes()
+//@     assert(e == nil)
+//@     assert(len(b) <= len(data) && seqeq(b, data[:len(b)]))
+//@   }
+//@ }
+
+// C09: the Destination inside an accepted LeaseSet obeys the key-type policy.
+//@ lemma C09_ReadLeaseSet(data []byte) {
+//@   ls, err := ReadLeaseSet(data)
+//@   if err == nil {
+//@     d := ls.Destination()
+//@     assert(d.KeysAndCert != nil)
+//@     assert(destination.PermittedDest(key_certificate.SigType(d.KeysAndCert.KeyCertificate), key_certificate.CryptoType(d.KeysAndCert.KeyCertificate)))
+//@   }
+//@ }
+
+//@ lemma C09_ReadDestinationFromLeaseSet(data []byte) {
+//@   d, _, err := ReadDestinationFromLeaseSet(data)
+//@   if err == nil {
+//@     assert(d.KeysAndCert != nil)
+//@     assert(destination.PermittedDest(key_certificate.SigType(d.KeysAndCert.KeyCertificate), key_certificate.CryptoType(d.KeysAndCert.KeyCertificate)))
+//@   }
+//@ }
+
+// C03: the destination prefix is consumed exactly.
+//@ lemma C03_ReadDestinationFromLeaseSet(data []byte) {
+//@   _, rem, err := ReadDestinationFromLeaseSet(data)
+//@   if err == nil {
+//@     assert(keys_and_cert.KacAccepts(data) && suffix(rem, data, keys_and_cert.KacExtent(data)))
+//@   }
+//@ }
